@@ -21,6 +21,7 @@ def run(pids=None, standin=False, verbose=True):
             s = open(p).read()
             if s.count(m['old']) < 1:
                 out.append((m, 'stale: pattern not found', ''))
+                print('STALE', m['name'])
                 continue
             open(p, 'w').write(s.replace(m['old'], m['new'], 1))
             env = dict(os.environ, PYVC_REPO_SRC=os.path.join(d, 'src'))
